@@ -1,5 +1,6 @@
 import JmesVerif.Lemmas.Compare
 import JmesVerif.Lemmas.CodeEquiv
+import JmesVerif.Lemmas.ValidEquiv
 /-!
 # C10 — equality and ordering operators obey their algebraic contract
 
@@ -371,6 +372,16 @@ theorem C10_translated_compare_gate (c : Cmp) (a b : Val) :
     Val.compare c a b = (Generated.Code.compare (cmpOf c) (isNum a) (isNum b)).map (relEval a b) :=
   gen_compare_gate_eq c a b
 
+
+/-! ### `float_eq`, `PartialEq` and `Ord` for `Variable` as re-translated from variable.rs on every run
+
+the tolerant number equality, the type-gated deep equality and the internal total order are read off the source (`Generated/ValidCode.lean`)
+and equal the model's `floatEq`, `Val.beq` and `Val.cmp` that the theorems above are about. -/
+open Generated.ValidCode in
+theorem C10_translated_equality :
+    (∀ a b : F64, float_eq a b = floatEq a b) ∧ (∀ a b : Val, variable_eq a b = Val.beq a b) ∧ (∀ a b : Val, variable_cmp a b = Val.cmp a b) :=
+  ⟨gen_float_eq_eq, gen_eq_eq, gen_cmp_eq⟩
+
 end JmesVerif
 
 #print axioms JmesVerif.C10_eq_symm
@@ -383,3 +394,4 @@ end JmesVerif
 #print axioms JmesVerif.C10_trichotomy
 #print axioms JmesVerif.C10_le_iff_lt_or_eq
 #print axioms JmesVerif.C10_translated_compare_gate
+#print axioms JmesVerif.C10_translated_equality
